@@ -179,10 +179,9 @@ class Translate(BaseTranslateFilter, TranslatableFilter):
                 message=(left.value,),
             )
 
-        if isinstance(_filter.args[0], PositionalArgument):
-            _context: Expression | None = _filter.args[0].value
-        else:
-            _context = None
+        # The context is the first positional argument, wherever keyword arguments are.
+        positional = _positional_arguments(_filter)
+        _context: Expression | None = positional[0] if positional else None
 
         plural: Expression | None = None
         for arg in _filter.args:
@@ -306,10 +305,11 @@ class NGetText(BaseTranslateFilter, TranslatableFilter):
         _filter: Filter,
         lineno: int,
     ) -> MessageText | None:
-        if len(_filter.args) < 1:
+        positional = _positional_arguments(_filter)
+        if len(positional) < 1:
             return None
 
-        plural = _filter.args[0].value
+        plural = positional[0]
 
         if not isinstance(left, StringLiteral) or not isinstance(plural, StringLiteral):
             return None
@@ -359,10 +359,11 @@ class PGetText(BaseTranslateFilter, TranslatableFilter):
     def message(  # noqa: D102
         self, left: Expression, _filter: Filter, lineno: int
     ) -> MessageText | None:
-        if len(_filter.args) < 1:
+        positional = _positional_arguments(_filter)
+        if len(positional) < 1:
             return None
 
-        ctx = _filter.args[0].value
+        ctx = positional[0]
 
         if not isinstance(left, StringLiteral) or not isinstance(ctx, StringLiteral):
             return None
@@ -429,11 +430,12 @@ class NPGetText(BaseTranslateFilter, TranslatableFilter):
         _filter: Filter,
         lineno: int,
     ) -> MessageText | None:
-        if len(_filter.args) < 2:  # noqa: PLR2004
+        positional = _positional_arguments(_filter)
+        if len(positional) < 2:  # noqa: PLR2004
             return None
 
-        ctx = _filter.args[0].value
-        plural = _filter.args[1].value
+        ctx = positional[0]
+        plural = positional[1]
 
         if (
             not isinstance(left, StringLiteral)
@@ -447,6 +449,13 @@ class NPGetText(BaseTranslateFilter, TranslatableFilter):
             funcname=self.name,
             message=((ctx.value, "c"), left.value, plural.value),
         )
+
+
+def _positional_arguments(_filter: Filter) -> list[Expression]:
+    """The operands of a filter, as they are passed to it when it is applied."""
+    return [
+        arg.value for arg in _filter.args if isinstance(arg, PositionalArgument)
+    ]
 
 
 def _count(val: Any) -> int | None:
